@@ -50,7 +50,7 @@ func NewPriorityQueue(lessFn common_info.LessFn, maxQueueSize int) *PriorityQueu
 func (q *PriorityQueue) Push(it interface{}) {
 	heap.Push(&q.queue, it)
 	if q.maxQueueSize != QueueCapacityInfinite && q.queue.Len() > q.maxQueueSize {
-		heap.Remove(&q.queue, q.maxQueueSize)
+		heap.Remove(&q.queue, q.queue.indexOfLast())
 	}
 }
 
@@ -107,6 +107,18 @@ func (pq *priorityQueue) Pop() interface{} {
 	item := old[n-1]
 	(*pq).items = old[0 : n-1]
 	return item
+}
+
+// indexOfLast returns the index of the item that would be popped last. The last slot of the heap
+// array is a leaf, but not necessarily that item.
+func (pq *priorityQueue) indexOfLast() int {
+	last := 0
+	for i := 1; i < pq.Len(); i++ {
+		if pq.Less(last, i) {
+			last = i
+		}
+	}
+	return last
 }
 
 func (pq *priorityQueue) Peek() interface{} {
